@@ -104,8 +104,10 @@ inductive Op where
   | handlerErr (id : Nat)         -- external event whose handler raises exc id *inside* the handler
   | paramErr                      -- external event with a missing parameter (TypeError from the call itself)
   | unknownEvt                    -- external event of a type the block does not know
-  | nestedUnknown                 -- external event whose handler sends an INTERNAL event of an unknown type
-                                  -- (on_output event to another block, or an FSM entry action to its own block)
+  | nestedUnknown (outChanged : Bool)
+                                  -- external event whose handler sends an INTERNAL event of an unknown type
+                                  -- (on_output event to another block: the sender's output has changed, which
+                                  -- wakes the simulator; or an FSM entry action to its own block: it has not)
   | ctrlAbort (id : Nat)          -- external 'abort' event to the ControlBlock, error = exc id
   | ctrlShutdown                  -- external 'shutdown' event to the ControlBlock
   | armCalc (a : Armed)           -- external event that changes an input of a raising evaluation
@@ -179,7 +181,10 @@ def step (s : St) : Op → St × Out
   | .unknownEvt => (s, { reply := if s.ready then .unknownEvent else .invalidState })
   -- the code: `except EdzedUnknownEvent: raise` lets the nested exception pass through the outer
   -- handler without abort() -- mirrored here, see `nested_unknown_event_not_fatal` in EdzedProps/C09.lean
-  | .nestedUnknown => (s, { reply := if s.ready then .unknownEvent else .invalidState })
+  | .nestedUnknown outChanged =>
+    if s.ready then
+      ((if outChanged && s.phase == .tryBlock then s.addWake .sim else s), { reply := .unknownEvent })
+    else (s, { reply := .invalidState })
   | .ctrlAbort id =>
     if s.ready then (s.abort (.reported id), { dels := [.reported id] }) else (s, { reply := .invalidState })
   | .ctrlShutdown =>
